@@ -42,7 +42,7 @@ func parseTagAndLength(bytes []byte) (r tagAndLen, off int, e error) {
 		// number of octets the length itself is written in
 		lenOctets := int(bytes[off] & 0x7f)
 		// fmt.Println("len", len)
-		if lenOctets > 3 {
+		if lenOctets > 7 {
 			e = fmt.Errorf("length is too large")
 			return r, off, e
 		}
